@@ -45,5 +45,7 @@ typedef void (*release_hook_fn)(void *p, size_t size, void *ud);
 void set_release_hook(release_hook_fn fn, void *ud);
 typedef void (*acquire_hook_fn)(size_t size, void *ud); // called at the start of every acquire/calloc the code under test makes
 void set_acquire_hook(acquire_hook_fn fn, void *ud);
+typedef void (*prerelease_hook_fn)(void *ud); // called at the start of every release of a non-NULL block the code under test makes
+void set_prerelease_hook(prerelease_hook_fn fn, void *ud);
 
 } // namespace simalloc
